@@ -86,7 +86,12 @@ func (rl *Shell) Readline() (string, error) {
 		// Block and wait for available user input keys.
 		// These might be read on stdin, or already available because
 		// the macro engine has fed some keys in bulk when running one.
-		core.WaitAvailableKeys(rl.Keys, rl.Config)
+		// When the input has ended or failed, no key will ever come:
+		// return the current line along with the error.
+		if err := core.WaitAvailableKeys(rl.Keys, rl.Config); err != nil {
+			rl.Display.AcceptLine()
+			return string(*rl.line), err
+		}
 
 		// 1 - Local keymap (Completion/Isearch/Vim operator pending).
 		bind, command, prefixed := keymap.MatchLocal(rl.Keymap)
